@@ -1,5 +1,6 @@
 import Knut.Properties.C02
 import Knut.FactsAgree.TransRenderVals
+import Knut.Properties.C01Go
 /-!
 # C02 (the ledger clause) on the generated definitions
 
@@ -115,6 +116,79 @@ theorem C02_ledger_cells_go_partial (cur : String → Bool) (part : date.Partiti
   obtain ⟨vals, hvals, hcell⟩ := C02_node_cells_go cur part log al byCommodity hcom p m hm h1 h2
   refine ⟨vals, hvals, fun c hcc d hdd => ?_⟩
   rw [hcell c hcc d hdd, hlog, C02.C02_noclose cfg hv hc days hd st hrun]
+
+/-! ## with the log produced by the translated `Query.Into`
+
+`C01Go.queryAll_model` gives the entries of the log the translated `Posting` closure produces over the transactions that reach the query
+stage; `esOf_sec` splits them by section when the accounts of the keys are registry accounts (`accountGo`, or nil for a hidden one). -/
+
+/-- the entries of a section's inserts are the entries of the log on accounts of that section -/
+theorem esOf_sec (log : Log)
+    (hacc : ∀ e ∈ log, e.1.Account = GoZero.zero ∨ ∃ a : Knut.Account, e.1.Account = Knut.FactsAgree.TransAccount.accountGo a)
+    (al : Bool) : esOf (sec al log) = (esOf log).filter (fun x => x.account.isAL == al) := by
+  induction log with
+  | nil => rfl
+  | cons e rest ih =>
+    have ih' := ih (fun x hx => hacc x (List.mem_cons_of_mem _ hx))
+    by_cases hz : e.1.Account = GoZero.zero
+    · have h1 : sec al (e :: rest) = sec al rest := by simp [sec, hz]
+      have h3 : esOf (e :: rest) = esOf rest := by simp [esOf, entryOf, hz]
+      rw [h1, h3, ih']
+    · obtain ⟨a, ha⟩ : ∃ a : Knut.Account, e.1.Account = Knut.FactsAgree.TransAccount.accountGo a := by
+        rcases hacc e List.mem_cons_self with h | h
+        · exact absurd h hz
+        · exact h
+      obtain ⟨x, hx⟩ : ∃ x, entryOf e = some x := by simp [entryOf, hz]
+      have hxa : x.account = a := by
+        unfold entryOf at hx
+        simp only [hz, if_false, Option.some.injEq] at hx
+        subst hx
+        simp only [ha, Knut.FactsAgree.TransAccount.accountGo]
+      have hal : account.Account.IsAL e.1.Account = a.isAL := by
+        rw [ha]; exact Knut.FactsAgree.TransAccount.IsAL_agrees a
+      have h3 : esOf (e :: rest) = x :: esOf rest := by simp [esOf, hx]
+      by_cases hb : a.isAL = al
+      · have h1 : sec al (e :: rest) = e :: sec al rest := by simp [sec, hz, hal, hb]
+        have h4 : esOf (e :: sec al rest) = x :: esOf (sec al rest) := by simp [esOf, hx]
+        rw [h1, h3, h4, ih']
+        simp [hxa, hb]
+      · have h1 : sec al (e :: rest) = sec al rest := by simp [sec, hz, hal, hb]
+        rw [h1, h3, ih']
+        simp [hxa, hb]
+
+/-- **without closing, the cells of a row are the ledger's**, with the log produced by the translated `Query.Into` over Go transactions
+that stand for the transactions reaching the query stage in a run of the model (no valuation, no closing).  Still partial in `hrel`
+(see `C01Go.C01_delta_zero_query_go_partial`). -/
+theorem C02_ledger_cells_query_go_partial (cur : String → Bool) (part : date.Partition) (al : Bool) (byCommodity : Bool)
+    (cfg : BalCfg) (hv : cfg.valuation = none) (hc : cfg.close = false) (days : List Day) (hd : C02.DaysConsistent days)
+    (st : BalState) (hrun : Balance.run cfg days = .ok st) (all : List Knut.Transaction) (hall : C01Go.runTxs cfg {} days = .ok all)
+    (q : journal.Query) (w : amounts.Key → Bool) (s : amounts.Key → amounts.Key)
+    (hq : C01Go.QueryFor cur cfg (journal.Query.Into.init q).query w s)
+    (tgs : List transaction.Transaction) (hrel : Knut.FactsAgree.TransProcess.AllRel (Knut.FactsAgree.TransProcess.TRel cur) tgs all) :
+    ∃ qs, C01Go.queryAllGo (journal.Query.Into.init q) tgs = .ok (qs, none) ∧
+      ((∀ e ∈ qs.c, e.1.Commodity = Knut.FactsAgree.TransPosting.commodityGo cur e.1.Commodity.name ∧ e.1.Commodity.name ≠ "") →
+       (∀ e ∈ qs.c, e.1.Account = GoZero.zero ∨ ∃ a : Knut.Account, e.1.Account = Knut.FactsAgree.TransAccount.accountGo a) →
+        ∀ (p : List String) (m : Node), MNode.nodeAt? (treeOf al (reportOf part qs.c)) p = some m →
+          ∀ (order1 order2 : List amounts.Key), order1.Perm (AMap.keys m.Value.Amounts) →
+            (∀ x, (∃ k ∈ AMap.keys m.Value.Amounts, mfR byCommodity k = x) → x ∈ order2) →
+            ∃ vals, amounts.Amounts.SumBy m.Value.Amounts none (pureFn (mfR byCommodity)) order1 order2 = GoSem.Outcome.ok vals ∧
+              ∀ (c : Option Knut.Commodity), (∀ s, c = some s → s ≠ "") → ∀ d : Int, d ≠ 0 →
+                AMap.get vals (amounts.DateCommodityKey d (comGo cur c)) 0 =
+                  BalanceReport.cellAt (((Spec.ledgerEntries cfg days).filter (fun x => x.account.isAL == al)).filter
+                    (fun x => decide (x.account.segments = p))) byCommodity c d) := by
+  obtain ⟨qs, h1, _, he⟩ := C01Go.queryAll_model tgs all hrel (journal.Query.Into.init q) hq
+  obtain ⟨all', ha', hent⟩ := C01Go.run_entries cfg days {} st hrun
+  rw [hall] at ha'
+  injection ha' with ha'
+  subst ha'
+  have hc0 : esOf (journal.Query.Into.init q).c = [] := by
+    rw [Knut.FactsAgree.TransQuery.Query_init_agrees]; rfl
+  have hlog : esOf qs.c = st.entries := by
+    rw [he, hc0, hent]
+  refine ⟨qs, h1, ?_⟩
+  intro hcom hacc p m hm order1 order2 ho1 ho2
+  exact C02_ledger_cells_go_partial cur part qs.c al byCommodity hcom p m hm ho1 ho2 cfg hv hc days hd st hrun
+    (by rw [esOf_sec qs.c hacc al, hlog])
 
 /-! ### Non-vacuity: the root of the A+L tree of the empty report: no amounts, every order admissible, every cell 0 -/
 example : ∃ vals, amounts.Amounts.SumBy (MNode.new "" : Node).Value.Amounts none (pureFn (mfR true)) [] [] = GoSem.Outcome.ok vals ∧
